@@ -251,14 +251,14 @@ def run(ctx):
     traces = [random_trace(rng, rng.randint(2, 7)) for _ in range(ntr)]
     traces += [deepcopy_trace(rng) for _ in range(ntr // 4)]
     # spec -> code: every behaviour of the session machine enumerated by TLC (LoDSMGen) is replayed call by call
-    gcfg = "INIT Init\nNEXT Next\nINVARIANT Inv\nCONSTANTS\n  MaxLists = %d\n  MaxItems = 12\n"
-    rg = ctx.model_check("LoDSMGen", cfg_text=gcfg % 3, timeout=3000)
+    gcfg = "INIT Init\nNEXT Next\nINVARIANT Inv\nCONSTANTS\n  MaxLists = %d\n  MaxItems = 12\n  PreEvents = {%s}\n"
+    rg = ctx.model_check("LoDSMGen", cfg_text=gcfg % (3, '"", "keys", "pluck", "poke"'), timeout=3000)
     behaviours = [j["hist"] for j in rg.json_lines if "hist" in j]
     ctx.extra["tlc_generated_behaviours"] = len(behaviours)
     if quick:
         behaviours = rng.sample(behaviours, min(len(behaviours), 9000))
     if not quick:
-        rg4 = ctx.model_check("LoDSMGen", cfg_text=gcfg % 4, timeout=3400, heap="12g")
+        rg4 = ctx.model_check("LoDSMGen", cfg_text=gcfg % (4, '""'), timeout=3400, heap="12g")      # one list deeper, without the optional pre-events
         b4 = [j["hist"] for j in rg4.json_lines if "hist" in j]
         behaviours += rng.sample(b4, min(len(b4), 20000))
     ctx.extra["tlc_generated_behaviours_replayed"] = len(behaviours)
